@@ -1,6 +1,6 @@
 (* C15 — property theorems only.  Each is closed by `exact <lemma>` and followed by Print Assumptions. *)
 From Coq Require Import String List NArith ZArith Arith Bool.
-From Verif.C15 Require Import Model Spec Proofs ProofsForeign ProofsNoRewrite ProofsConv ProofsConv2 ProofsHist.
+From Verif.C15 Require Import Model Spec Proofs ProofsForeign ProofsNoRewrite ProofsConv ProofsConv2 ProofsLoad ProofsApply ProofsRc ProofsApi ProofsHist.
 Import ListNotations.
 
 (* Every rule and chain not owned by Felix is unchanged, including order.  For ANY Table state that keeps
@@ -45,27 +45,34 @@ Theorem c15_no_rewrite_if_unchanged_hooks : forall cf t cs c,
 Proof. exact no_rewrite_hooks'. Qed.
 Print Assumptions c15_no_rewrite_if_unchanged_hooks.
 
-(* Convergence of one restore transaction (PARTIAL as a statement about Apply: see below).  For ANY kernel
-   table k and ANY Table state whose caches are a read-back of k ([uhyp]: caches accurate, no forged
-   hashes, dirty sets duplicate-free and on the right kind of chain, every chain the read-back did NOT
-   mark dirty already at its target): if the restore input computed by applyUpdates is accepted, then
-   EVERY chain of the resulting kernel is at its target [tgt]: each Felix-owned chain holds exactly the
-   wanted rules in order, or is gone if it is not wanted (stale chains of an earlier Felix included);
-   each other chain holds its foreign rules unchanged and in order with Felix's hook rules at the
-   configured position (insert mode: hooks ++ foreign ++ appends; append mode: foreign ++ hooks ++
-   appends) and every stale / old-hash / old-insert Felix rule removed.  Holds for both delete-by-value
-   semantics (first match = iptables, all matches = MockDataplane).
-   Stated for the legacy backend (cf_nft = false); the nft-mode restore input is modelled and covered by
-   c15_foreign_untouched and the correspondence run only.
-   Missing for the full c15_converges over Apply(): the proof that loadDataplaneState establishes the
-   "not marked dirty => already at target" part of [uhyp] from the Table invariant (cache of a non-dirty
-   chain = hashes of its wanted rules), and that invariant's preservation by the API calls. *)
-Theorem c15_converges_partial : forall cf dall t k cs k',
+(* Convergence of one restore transaction.  For ANY kernel table k and ANY Table state whose caches are a
+   read-back of k ([uhyp]): if the restore input computed by applyUpdates is accepted, EVERY chain of the
+   resulting kernel is at its target [tgt]: each Felix-owned chain holds exactly the wanted rules in order, or
+   is gone if it is not wanted (stale chains of an earlier Felix included); each other chain holds its foreign
+   rules unchanged and in order with Felix's hook rules at the configured position (insert mode: hooks ++
+   foreign ++ appends; append mode: foreign ++ hooks ++ appends) and every stale / old-hash / old-insert Felix
+   rule removed.  Both delete-by-value semantics.  Legacy backend. *)
+Theorem c15_converges_transaction : forall cf dall t k cs k',
   cf_nft cf = false ->
   uhyp cf t k -> apply_cmds cf t = Some cs -> exec dall k cs = Some k' ->
   forall c, get c k' = tgt cf t k c.
 Proof. exact update_converges'. Qed.
-Print Assumptions c15_converges_partial.
+Print Assumptions c15_converges_transaction.
+
+(* c15_converges, full: for ANY kernel table k and ANY Table state satisfying the Table invariant [winv]
+   (a non-dirty owned chain's cached hashes = the hashes of its wanted rules, nothing cached for unwanted ones;
+   an uncached, unmarked foreign chain has no hooks wanted; dirty sets duplicate-free and on the right kind of
+   chain), whose cache is invalid (so Apply re-reads: first Apply of a process, refresh timer, any API call):
+   if Apply() succeeds - after any number of injected save/restore failures and retries, with no edit racing
+   between its read-back and its restore - then EVERY chain is at its target.  [noforge] is the RuleHashes
+   assumption: a kernel line carrying the hash of a wanted rule of its chain is that rule's rendered text.
+   loadDataplaneState's marking (everything not marked is already at target) is now proved, not assumed. *)
+Theorem c15_converges : forall cf dall fs t k,
+  cf_nft cf = false -> winv cf t -> t_insync t = false -> no_racing fs -> noforge cf t k ->
+  ao_result (apply cf dall fs t k) = Success ->
+  forall c, get c (ao_kernel (apply cf dall fs t k)) = tgt cf t k c.
+Proof. exact apply_converges. Qed.
+Print Assumptions c15_converges.
 
 (* The positional delta at the heart of it: from ANY chain content L (stale rules, foreign lines, current
    rules at wrong positions), the -R / -D / -A lines computed from L's hash list and the wanted rules ds
@@ -77,15 +84,34 @@ Theorem c15_positional_delta : forall dall c L pre ds,
 Proof. exact delta_run. Qed.
 Print Assumptions c15_positional_delta.
 
-(* Any history (PARTIAL): through every sequence of Apply() with arbitrary injected failures and racing
-   edits, timer invalidations, out-of-band edits, panics and restarts (= fresh Table over the same kernel)
-   the invariant needed by c15_foreign_untouched is kept, so that theorem applies to every Apply of the
-   history.  Its preservation by the four API calls (which needs the incref/decref recursion: dirty marks
-   only on Felix-owned names when jump targets are Felix-owned) is a hypothesis ([api_keeps]), not proved. *)
-Theorem c15_any_history_partial : forall cf dall ops s,
-  Forall (api_keeps cf) ops -> finv cf (m_table s) -> finv cf (m_table (final cf dall s ops)).
+(* c15_any_history, full.  The history invariant [hinv] (= winv + jump targets are Felix-owned) holds after
+   EVERY history of UpdateChain / RemoveChain / InsertOrAppendRules / AppendRules (under the API discipline
+   [op_ok]: chains given to UpdateChain/RemoveChain and jump targets have Felix-owned names, hooks go into
+   non-owned chains and carry a hash), Apply() with arbitrary injected failures and racing edits, timer
+   invalidations, out-of-band edits of the kernel, panics and restarts (= fresh Table over the same kernel).
+   The four API calls are proved to keep it (incref/decref recursion included); no hypothesis about them is left. *)
+Theorem c15_history_invariant : forall cf dall ops s,
+  cfg_ok cf -> Forall (op_ok cf) ops -> hinv cf (m_table s) -> hinv cf (m_table (final cf dall s ops)).
+Proof. exact history_hinv. Qed.
+Print Assumptions c15_history_invariant.
+
+(* ... hence c15_foreign_untouched applies to every Apply of every history from a fresh Table ... *)
+Theorem c15_any_history_foreign : forall cf dall k0 ops,
+  cfg_ok cf -> Forall (op_ok cf) ops -> finv cf (m_table (final cf dall (init cf k0) ops)).
 Proof. exact history_finv. Qed.
-Print Assumptions c15_any_history_partial.
+Print Assumptions c15_any_history_foreign.
+
+(* ... and after ANY such history from ANY starting kernel k0, once the cache is invalidated (timer) a
+   successful Apply() without a racing edit brings every chain of the then-current kernel to its target. *)
+Theorem c15_any_history : forall cf dall k0 ops fs,
+  cf_nft cf = false -> cfg_ok cf -> Forall (op_ok cf) ops ->
+  let s := final cf dall (init cf k0) ops in
+  let t := invalidate (m_table s) in
+  no_racing fs -> noforge cf t (m_kernel s) ->
+  let r := apply cf dall fs t (m_kernel s) in
+  ao_result r = Success -> forall c, get c (ao_kernel r) = tgt cf t (m_kernel s) c.
+Proof. exact history_converges. Qed.
+Print Assumptions c15_any_history.
 
 (* Non-vacuity: a kernel with a foreign rule, an old-insert rule and a stale hashed rule in FORWARD, a stale
    chain cali-old, and a wanted chain cali-a present with a wrong first rule and a surplus rule; one Apply
